@@ -146,8 +146,9 @@ func main() {
 		"value is re-observed after every step) is non-trivial when some receiver is used by two steps or a step works on the " +
 		"result of an earlier operation; distinct = distinct operation sequences"
 	r := &runner{cfg: cfg, res: res, cf: newCases()}
+	tr := &trunner{runner: r, tcf: newTCases()}
 	if cfg.Replay != "" {
-		replay(r)
+		replay(r, tr)
 	} else {
 		rng := lib.NewRng(cfg.Seed)
 		for _, ops := range corpus() {
@@ -155,13 +156,28 @@ func main() {
 		}
 		exhaustive(r)
 		random(r, rng)
+		// results that are types (infer.go, infergen.go)
+		for _, ops := range corpusT() {
+			tr.check(ops, true, true, "corpus-types")
+		}
+		exhaustiveT(tr)
+		randomT(tr, rng)
 	}
 	res.CorrFiles = append(res.CorrFiles, r.cf.WriteTo(cfg.Out, "cases_heap"))
+	res.CorrFiles = append(res.CorrFiles, tr.tcf.WriteTo(cfg.Out, "cases_infer"))
 	res.Write(cfg)
 }
 
-func replay(r *runner) {
+func replay(r *runner, tr *trunner) {
 	for _, in := range lib.ReplayInputs(r.cfg.Replay) {
+		var k struct {
+			Kind string `json:"kind"`
+		}
+		lib.Remarshal(in, &k)
+		if k.Kind == "thistory" {
+			replayT(tr, in)
+			continue
+		}
 		var x struct {
 			Kind string     `json:"kind"`
 			Ops  []collh.Op `json:"ops"`
